@@ -99,3 +99,13 @@ Theorem C03_engine_verdict : forall data cs bufsize t reads,
        exists z, out (Inflate.inflate [] data) = results_bytes l ++ z /\ (length z <= 2)%nat).
 Proof. exact engine_verdict. Qed.
 Print Assumptions C03_engine_verdict.
+
+(* ---- the gzip and zlib Readers on top of the engine (RModel/GzEngine.v) never panic or stall either:
+   header parsing, trailer reads and the shared buffer included (proofs/GzEngineTop3.v) *)
+From Verif Require Import GzEngine GzEngineSpec GzEngineSpec3 GzEngineTop3.
+Theorem C03_gz_reader_no_panic : gz_safe_statement.
+Proof. exact gz_safe. Qed.
+Print Assumptions C03_gz_reader_no_panic.
+Theorem C03_zl_reader_no_panic : zl_safe_statement.
+Proof. exact zl_safe. Qed.
+Print Assumptions C03_zl_reader_no_panic.
